@@ -48,9 +48,9 @@ def is_pure_path(e):
     """parameters / locals, attributes of them, subscripts, self.<attr>, integer literals: no effect, and its value does
     not change unless one of its containers is stored into or one of its variables is rebound."""
     k = e[0]
-    if k in ('var', 'selfAttr', 'traceHandlers', 'int'):
+    if k in ('var', 'selfAttr', 'traceHandlers', 'int', 'addrs', 'uuids'):
         return True
-    if k == 'field':
+    if k in ('field', 'csFrames'):
         return is_pure_path(e[1])
     if k == 'index':
         return is_pure_path(e[1]) and is_pure_path(e[2])
@@ -63,10 +63,14 @@ def ops(e):
     k = e[0]
     if k == 'index':
         return ops(e[1]) + ops(e[2]) + [e]
-    if k in ('field', 'not', 'list1'):
+    if k in ('field', 'not', 'list1', 'csFrames'):
         return ops(e[1])
-    if k in ('isIn', 'getOrEmpty'):
+    if k in ('isIn', 'getOrEmpty', 'sub', 'gt'):
         return ops(e[1]) + ops(e[2])
+    if k == 'bisect':
+        return ops(e[1]) + ops(e[2]) + [e]
+    if k == 'mkFrame':
+        return ops(e[1]) + ops(e[2]) + ops(e[3])
     if k in ('or', 'and'):
         return ops(e[1])
     return []
@@ -90,8 +94,10 @@ def head_ops(s):
         return ops(s[2])
     if k in ('setNewDict', 'setNewList', 'append'):
         return ops(s[1]) + ops(s[2])
-    if k == 'forKeys':
+    if k in ('forKeys', 'forIn', 'appendVar'):
         return ops(s[2])
+    if k == 'insert':
+        return ops(s[1]) + ops(s[2]) + ops(s[3])
     if k == 'pop':
         return ops(s[2]) + ops(s[3])
     return []
@@ -214,6 +220,9 @@ class MethodTranslator:
             return kont(env)
         st, rest = stmts[0], stmts[1:]
         nxt = lambda e: self.block(rest, e, kont)  # noqa: E731
+        sp = self.special(st, env, nxt)
+        if sp is not None:
+            return sp
         if isinstance(st, ast.Pass) or (isinstance(st, ast.Expr) and isinstance(st.value, ast.Constant)
                                         and isinstance(st.value.value, str)):
             return nxt(env)
@@ -272,6 +281,15 @@ class MethodTranslator:
                 return ('assign', t.id, e, nxt(env))
         return ('unsupported', self.text(st))
 
+    def special(self, st, env, nxt):
+        """statement forms of a subclass's subset (None: not one of them)"""
+        return None
+
+    def finish(self, params, body):
+        used = {x[1] for x in _walk_vars(body)}
+        names = params + [n for n in self.order if n in used and n not in params]
+        return len(params), _rename(body, {n: i for i, n in enumerate(names)})
+
     def translate(self):
         a = self.fn.args
         if (self.fn.decorator_list or a.vararg or a.kwarg or a.kwonlyargs or a.defaults or a.posonlyargs
@@ -280,9 +298,10 @@ class MethodTranslator:
         params = [x.arg for x in a.args[1:]]
         env = Env({p: ('var', p) for p in params})
         body = self.block(self.fn.body, env, lambda e: ('ret', ('none',)))
-        used = {x[1] for x in _walk_vars(body)}
-        names = params + [n for n in self.order if n in used and n not in params]
-        return len(params), _rename(body, {n: i for i, n in enumerate(names)})
+        return self.finish(params, body)
+
+
+BINDERS = ('assign', 'forKeys', 'pop', 'assignNewList', 'forIn', 'appendVar')
 
 
 def _walk_vars(s):
@@ -292,7 +311,7 @@ def _walk_vars(s):
     if s[0] == 'var':
         yield s
         return
-    if s[0] in ('assign', 'forKeys', 'pop'):
+    if s[0] in BINDERS:
         yield ('var', s[1])
     for x in s[1:]:
         if isinstance(x, tuple):
@@ -304,7 +323,7 @@ def _rename(s, num):
         return s
     if s[0] == 'var':
         return ('var', num[s[1]])
-    if s[0] in ('assign', 'forKeys', 'pop'):
+    if s[0] in BINDERS:
         return (s[0], num[s[1]]) + tuple(_rename(x, num) for x in s[2:])
     if s[0] == 'unsupported':
         return s
@@ -319,15 +338,17 @@ def lean(s, lean_str):
     k = s[0]
     if k == 'unsupported':
         return '(.unsupported %s)' % lean_str(s[1])
-    if k in ('none', 'traceHandlers', 'done'):
+    if k in ('none', 'traceHandlers', 'done', 'addrs', 'uuids'):
         return '.' + k
     parts = []
     for x in s[1:]:
         if isinstance(x, tuple):
             parts.append(lean(x, lean_str))
+        elif isinstance(x, int) and x < 0:
+            parts.append('(%d)' % x)
         else:
             parts.append(str(x))
-    return '(.%s %s)' % (k, ' '.join(parts))
+    return '(.%s %s)' % ({'appendVar': 'append'}.get(k, k), ' '.join(parts))
 
 
 def has_unsupported(s):
@@ -444,6 +465,189 @@ def translate_source(repo):
     return methods, actions, notes
 
 
+# ------------------------------------------------------------------------------------------------------------
+# callstacks_parser.py: `insert_image` and the frame loop of `feed_generator` (IR of Model/PyIRCs)
+# ------------------------------------------------------------------------------------------------------------
+
+CS_EXPR_KINDS = {'none', 'int', 'var', 'addrs', 'uuids', 'csFrames', 'bisect', 'sub', 'gt', 'isIn', 'index', 'mkFrame',
+                 'unsupported'}
+CS_ATTRS = {'dyld_addresses': ('addrs',), 'dyld_uuids': ('uuids',)}
+
+
+class CsTranslator(MethodTranslator):
+    """The same symbolic evaluation (aliases, conditions, continuations) over the subset of Model/PyIRCs."""
+
+    def __init__(self, src, fn, names):
+        super().__init__(src, fn, {})
+        self.names = names          # module-level names understood: {'bisect': 'bisect', 'Frame': 'mkFrame'}
+
+    def expr(self, n, env):
+        if isinstance(n, ast.Constant):
+            if n.value is None:
+                return ('none',)
+            if isinstance(n.value, int) and not isinstance(n.value, bool):
+                return ('int', n.value)
+            return ('unsupported', self.text(n))
+        if isinstance(n, ast.UnaryOp) and isinstance(n.op, ast.USub) and isinstance(n.operand, ast.Constant) \
+                and isinstance(n.operand.value, int) and not isinstance(n.operand.value, bool):
+            return ('int', -n.operand.value)
+        if isinstance(n, ast.Name):
+            return env.m.get(n.id, ('unsupported', self.text(n)))
+        if isinstance(n, ast.Attribute):
+            if isinstance(n.value, ast.Name) and n.value.id == 'self' and 'self' not in env.m:
+                return CS_ATTRS.get(n.attr, ('unsupported', self.text(n)))
+            if n.attr == 'cs_frames':
+                return ('csFrames', self.expr(n.value, env))
+            return ('unsupported', self.text(n))
+        if isinstance(n, ast.Call) and isinstance(n.func, ast.Name) and not n.keywords \
+                and not any(isinstance(a, ast.Starred) for a in n.args) and n.func.id not in env.m:
+            kind = self.names.get(n.func.id)
+            if kind == 'bisect' and len(n.args) == 2:
+                return ('bisect', self.expr(n.args[0], env), self.expr(n.args[1], env))
+            if kind == 'mkFrame' and len(n.args) == 3:
+                return ('mkFrame',) + tuple(self.expr(a, env) for a in n.args)
+            return ('unsupported', self.text(n))
+        if isinstance(n, ast.BinOp) and isinstance(n.op, ast.Sub):
+            return ('sub', self.expr(n.left, env), self.expr(n.right, env))
+        if isinstance(n, ast.Compare) and len(n.ops) == 1:
+            a, b = self.expr(n.left, env), self.expr(n.comparators[0], env)
+            if isinstance(n.ops[0], ast.Gt):
+                return ('gt', a, b)
+            if isinstance(n.ops[0], ast.Lt):
+                return ('gt', b, a) if not ops(a) and not ops(b) else ('unsupported', self.text(n))
+            if isinstance(n.ops[0], ast.In):
+                return ('isIn', a, b)
+            if isinstance(n.ops[0], ast.NotIn):
+                return ('not', ('isIn', a, b))
+            return ('unsupported', self.text(n))
+        if isinstance(n, ast.Subscript) and not isinstance(n.slice, (ast.Slice, ast.Tuple)):
+            return ('index', self.expr(n.value, env), self.expr(n.slice, env))
+        if isinstance(n, ast.UnaryOp) and isinstance(n.op, ast.Not):
+            return ('not', self.expr(n.operand, env))
+        if isinstance(n, ast.BoolOp):
+            vals = [self.expr(v, env) for v in n.values]
+            out = vals[-1]
+            for v in reversed(vals[:-1]):
+                out = ('or' if isinstance(n.op, ast.Or) else 'and', v, out)
+            return out
+        return ('unsupported', self.text(n))
+
+    def call(self, n, env):
+        return None
+
+    def special(self, st, env, nxt):
+        if isinstance(st, ast.Assign) and len(st.targets) == 1 and isinstance(st.targets[0], ast.Name) \
+                and isinstance(st.value, ast.List) and not st.value.elts and st.targets[0].id != 'self':
+            self.bind(st.targets[0].id, env)
+            return ('assignNewList', st.targets[0].id, nxt(env))
+        if isinstance(st, ast.Assign) and len(st.targets) == 1 and isinstance(st.targets[0], ast.Subscript):
+            return ('unsupported', self.text(st))
+        if isinstance(st, ast.Return) and isinstance(st.value, ast.Call):
+            return ('ret', self.expr(st.value, env))
+        if isinstance(st, ast.For):
+            if not (isinstance(st.target, ast.Name) and not st.orelse):
+                return ('unsupported', self.text(st))
+            it = self.expr(st.iter, env)
+            benv = env.copy()
+            self.bind(st.target.id, benv)
+            body = self.block(st.body, benv, lambda e: ('done',))
+            self.bind(st.target.id, env)
+            return ('forIn', st.target.id, it, body, nxt(env))
+        if isinstance(st, ast.Expr) and isinstance(st.value, ast.Call) and isinstance(st.value.func, ast.Attribute) \
+                and not st.value.keywords and not any(isinstance(a, ast.Starred) for a in st.value.args):
+            f, args = st.value.func, st.value.args
+            if f.attr == 'insert' and len(args) == 2:
+                lst = self.expr(f.value, env)
+                i, x = self.expr(args[0], env), self.expr(args[1], env)
+                env.stored(lst)
+                for k_, v_ in list(env.m.items()):          # any alias that reads the list at all is stale now
+                    if v_ != ('var', k_) and any(y == lst for y in subexprs(v_)):
+                        env.m[k_] = ('unsupported', 'stale alias ' + k_)
+                return ('insert', lst, i, x, nxt(env))
+            if f.attr == 'append' and len(args) == 1 and isinstance(f.value, ast.Name) \
+                    and env.m.get(f.value.id) == ('var', f.value.id):
+                return ('appendVar', f.value.id, self.expr(args[0], env), nxt(env))
+            return ('unsupported', self.text(st))
+        return None
+
+
+def _cs_sanitize(s):
+    """expression nodes the callstack IR does not have (a `not`/`or`/`and` outside an `if` condition, a PyIR-only node)"""
+    if not isinstance(s, tuple):
+        return s
+    if s[0] in ('not', 'or', 'and', 'field', 'selfAttr', 'traceHandlers', 'getOrEmpty', 'list1', 'retCall', 'pop',
+                'setNewDict', 'setNewList', 'forKeys'):
+        return ('unsupported', 'outside the callstack subset: ' + s[0])
+    if s[0] == 'append':
+        return ('unsupported', 'append to something that is not a local list')
+    if s[0] == 'unsupported':
+        return s
+    return (s[0],) + tuple(_cs_sanitize(x) for x in s[1:])
+
+
+def translate_callstacks(repo):
+    """-> ({'insertImage': (params, body), 'frameLoop': (params, body)}, notes)"""
+    with open(os.path.join(repo, 'pykdebugparser', 'callstacks_parser.py')) as fd:
+        src = fd.read()
+    tree = ast.parse(src)
+    notes, names = [], {}
+    for node in tree.body:
+        if isinstance(node, ast.ImportFrom) and node.module == 'bisect' and node.level == 0:
+            for al in node.names:
+                if al.name in ('bisect', 'bisect_right'):
+                    names[al.asname or al.name] = 'bisect'
+        if isinstance(node, ast.Assign) and len(node.targets) == 1 and isinstance(node.targets[0], ast.Name):
+            v = node.value
+            if isinstance(v, ast.Call) and isinstance(v.func, ast.Name) and v.func.id == 'namedtuple' and len(v.args) == 2 \
+                    and isinstance(v.args[1], ast.List) \
+                    and [getattr(e, 'value', None) for e in v.args[1].elts] == ['address', 'uuid', 'offset']:
+                names[node.targets[0].id] = 'mkFrame'
+            elif node.targets[0].id in names:
+                del names[node.targets[0].id]
+    cls = next((n for n in tree.body if isinstance(n, ast.ClassDef) and n.name == 'CallstacksParser'), None)
+    fns = {n.name: n for n in (cls.body if cls else []) if isinstance(n, ast.FunctionDef)}
+    out = {}
+    if 'insert_image' in fns:
+        p, b = CsTranslator(src, fns['insert_image'], names).translate()
+        out['insertImage'] = (p, _cs_sanitize(b))
+    else:
+        out['insertImage'] = (0, ('unsupported', 'method insert_image not found'))
+    # the frame loop: inside `for trace in generator:` the first `if`'s body up to `yield Callstack(_, _, <frames>)`
+    out['frameLoop'] = (0, ('unsupported', 'frame loop of feed_generator not found'))
+    fg = fns.get('feed_generator')
+    if fg is not None and not fg.decorator_list:
+        loops = [st for st in fg.body if isinstance(st, ast.For)]
+        if len(loops) == 1 and isinstance(loops[0].target, ast.Name) and loops[0].body \
+                and isinstance(loops[0].body[0], ast.If):
+            trace, blk = loops[0].target.id, loops[0].body[0].body
+            last = blk[-1] if blk else None
+            y = last.value if isinstance(last, ast.Expr) and isinstance(last.value, ast.Yield) else None
+            if y is not None and isinstance(y.value, ast.Call) and len(y.value.args) == 3 and not y.value.keywords \
+                    and isinstance(y.value.args[2], ast.Name) \
+                    and not any(isinstance(x, (ast.Yield, ast.YieldFrom)) for st in blk[:-1] for x in ast.walk(st)):
+                res = y.value.args[2].id
+                mt = CsTranslator(src, fg, names)
+                env = Env({trace: ('var', trace)})
+                body = mt.block(blk[:-1], env,
+                                lambda e: ('ret', e.m.get(res, ('unsupported', 'yielded name %s is not bound' % res))))
+                p, b = mt.finish([trace], body)
+                out['frameLoop'] = (p, _cs_sanitize(b))
+    return out, notes
+
+
+def generate_callstacks(repo, write_if_changed, lean_str):
+    blocks, notes = translate_callstacks(repo)
+    L = ['import KdVerif.Model.PyIRCs', 'namespace KdVerif.Gen.PyIRCs', 'open KdVerif.PyIRCs', '',
+         '/-! `CallstacksParser.insert_image` and the frame loop of `feed_generator` (pykdebugparser/callstacks_parser.py),',
+         '    symbolically evaluated from the source text into the IR of `Model/PyIRCs` (tools/gen_pyir.py). -/', '']
+    for field in ('insertImage', 'frameLoop'):
+        params, body = blocks[field]
+        L.append('def %s : Block := { params := %d, body :=\n  %s }\n' % (field, params, lean(body, lean_str)))
+    L.append('def notes : List String := [' + ', '.join(lean_str(n) for n in notes) + ']\n')
+    L += ['end KdVerif.Gen.PyIRCs', '']
+    return write_if_changed('PyIRCs.lean', '\n'.join(L))
+
+
 def generate(repo, write_if_changed, lean_str):
     methods, actions, notes = translate_source(repo)
     L = ['import KdVerif.Model.PyIR', 'namespace KdVerif.Gen.PyIR', 'open KdVerif.PyIR', '',
@@ -459,4 +663,6 @@ def generate(repo, write_if_changed, lean_str):
     L.append('/-- What the translator could not express outside the method bodies (must be empty). -/')
     L.append('def notes : List String := [' + ', '.join(lean_str(n) for n in notes) + ']\n')
     L += ['end KdVerif.Gen.PyIR', '']
-    return write_if_changed('PyIR.lean', '\n'.join(L))
+    a = write_if_changed('PyIR.lean', '\n'.join(L))
+    b = generate_callstacks(repo, write_if_changed, lean_str)
+    return a or b
